@@ -30,30 +30,41 @@ def tableUnet (f : Nat) (r : Rate) : Bool :=
     !(decide (bos ≤ os) && decide (2 * os ≤ ms)) ||
       ([2, 3].all fun cpb => bools.all fun mid => wellFormed (mkUnet f r ms stem bos os cpb mid))
 
+/-- `convs_per_block = 1` works exactly when `filters_rate = 1` and a stem is configured (all filters equal,
+    the stem block carries the one convolution): rows `rate = 1, cpb = 1, stem ∈ {2, 4}` -/
+def tableUnetCpb1 (f : Nat) : Bool :=
+  [8, 16, 32].all fun ms => [2, 4].all fun stem => strides6.all fun bos => strides6.all fun os =>
+    !(decide (bos ≤ os) && decide (2 * os ≤ ms)) ||
+      (bools.all fun mid => wellFormed (mkUnet f ⟨1, 1⟩ ms stem bos os 1 mid))
+
 def tableWrap (fam : Family) (v : Nat) : Bool :=
   [2, 4].all fun sps => strides6.all fun bos => strides6.all fun os =>
     !(decide (bos ≤ os) && decide (2 * os ≤ sps * 8)) ||
       ([1, 2, 3].all fun cpb => wellFormed (mkWrap fam v sps bos os cpb))
 
-/-- Documented validity: `backbone output_stride ≤ head stride ≤ max_stride / 2` for every head
-    (a head *at* the max stride is an invalid configuration, rejected loudly: see
-    `Props/C14.head_stride_eq_max_rejected`), at least one head. -/
+/-- Documented validity — the same predicate as `doc_valid` in `harness/c14.py`: at least one head and
+    `backbone output_stride ≤ head stride ≤ max_stride / 2` for every head, with `max_stride` the
+    **configured** one (a head *at* the max stride is an invalid configuration, rejected loudly: see
+    `Props/C14.head_stride_eq_max_rejected`).  Nothing else: `docs/config.md` puts no restriction on
+    `filters_rate`, `convs_per_block`, `middle_block` or on the wrappers' `max_stride`. -/
 def docValid (c : Cfg) : Bool :=
-  !c.heads.isEmpty && c.heads.all (fun h => decide (c.bos ≤ h.os) && decide (2 * h.os ≤ c.realMaxStride))
+  !c.heads.isEmpty && c.heads.all (fun h => decide (c.bos ≤ h.os) && decide (2 * h.os ≤ c.maxStride))
 
 /-- The extra hypotheses under which the contract is true of the code **as it is now** (HEAD of
-    /repo: both C14 fixes applied, `fixMid = fixWrap = true`).  UNet: `convs_per_block ≥ 2` (the excluded
-    region is the known finding F-C14-convs-per-block); `middle_block = False` is valid with any rate
-    since 24db0b1.  ConvNeXt / Swin-T: `filters_rate = 2` (documented restriction: their torchvision
-    encoders double the channels per stage); `output_stride > stem_patch_stride` is valid since e4cd03e. -/
+    /repo: both C14 fixes applied, `fixMid = fixWrap = true`); each excluded region is a `known` finding,
+    sampled by the harness with the property oracle:
+    * UNet: `convs_per_block ≥ 2`, or `convs_per_block = 1` with `filters_rate = 1` and a stem
+      (F-C14-convs-per-block is the rest of `convs_per_block = 1`);
+    * ConvNeXt / Swin-T: `filters_rate = 2` (F-C14-wrapper-filters-rate: their torchvision encoders double
+      the channels per stage, the decoder is sized from `filters_rate`) and `max_stride = 8·stem_patch_stride`
+      (F-C14-wrapper-max-stride: the wrappers ignore `config.max_stride`). -/
 def supported (c : Cfg) : Bool :=
   match c.fam with
-  | .unet => decide (2 ≤ c.cpb)
-  | _ => c.rate == ⟨2, 1⟩
+  | .unet => decide (2 ≤ c.cpb) || (c.rate == ⟨1, 1⟩ && c.stem != 0)
+  | _ => c.rate == ⟨2, 1⟩ && c.maxStride == c.stem * 8
 
 /-- the finite grid named by the property, on the tree as it is now (both fixes applied) (canonical representation: `variant = 0` for UNet,
-    `filters = 0`, `middle_block = True`, `max_stride = 8·stem_patch_stride` for the wrappers, which
-    ignore those fields) -/
+    `filters = 0`, `middle_block = True` for the wrappers, which ignore those fields) -/
 def inGrid (c : Cfg) : Bool :=
   c.inCh == 1 && c.fixMid && c.fixWrap && c.stemKernel == 4 && c.heads.all (fun h => strides6.contains h.os) && strides6.contains c.bos
     && [1, 2, 3].contains c.cpb && rates3.contains c.rate &&
@@ -61,8 +72,8 @@ def inGrid (c : Cfg) : Bool :=
   | .unet => c.variant == 0 && [8, 16, 24, 32, 64].contains c.filters && [8, 16, 32].contains c.maxStride
               && [0, 2, 4].contains c.stem
   | .convnext => [0, 1, 2, 3].contains c.variant && c.filters == 0 && [2, 4].contains c.stem
-              && c.maxStride == c.stem * 8 && c.middle
+              && [16, 32].contains c.maxStride && c.middle
   | .swint => [0, 1, 2].contains c.variant && c.filters == 0 && [2, 4].contains c.stem
-              && c.maxStride == c.stem * 8 && c.middle
+              && [16, 32].contains c.maxStride && c.middle
 
 end SleapVerif.Arch
